@@ -6,6 +6,12 @@ from hypothesis import strategies as st
 from . import ref
 
 
+def prob(draw, p):
+    """Bernoulli(p) draw (st.floats is far from uniform, so thresholds on it are not probabilities)."""
+    k = max(0, min(20, round(p * 20)))
+    return draw(st.sampled_from([True] * k + [False] * (20 - k))) if 0 < k < 20 else k == 20
+
+
 @st.composite
 def g1_nodes(draw, min_nodes=2, max_nodes=7, prefix="n", out_prefix="o", in_prefix="x", p_edge=0.7, allow_no_out=True, default_on_edge=0.2):
     """Acyclic gate-free program: list of func-node specs in a topological order (unique producers)."""
@@ -21,7 +27,7 @@ def g1_nodes(draw, min_nodes=2, max_nodes=7, prefix="n", out_prefix="o", in_pref
         k = draw(st.integers(0, 3))
         params: list[str] = []
         for _ in range(k):
-            if avail and draw(st.floats(0, 1)) < p_edge:
+            if avail and prob(draw, p_edge):
                 p = draw(st.sampled_from(avail))
             else:
                 p = f"{in_prefix}{n_inputs}"
@@ -32,8 +38,8 @@ def g1_nodes(draw, min_nodes=2, max_nodes=7, prefix="n", out_prefix="o", in_pref
             params.append(p)
             if p not in decided:
                 decided.add(p)
-                prob = default_on_edge if p in produced else 0.35
-                if draw(st.floats(0, 1)) < prob:
+                pr = default_on_edge if p in produced else 0.35
+                if prob(draw, pr):
                     defaults_by_name[p] = ["dflt", p]
         nout = draw(st.sampled_from([0, 1, 1, 1, 2, 3] if allow_no_out else [1, 1, 1, 2, 3]))
         outs = [f"{out_prefix}{i}_{j}" for j in range(nout)]
@@ -59,7 +65,7 @@ def permuted(draw, nodes):
 
 @st.composite
 def subset(draw, items, p=0.3):
-    return [x for x in items if draw(st.floats(0, 1)) < p]
+    return [x for x in items if prob(draw, p)]
 
 
 @st.composite
@@ -76,14 +82,14 @@ def g1_case(draw, min_nodes=2, max_nodes=7, with_select=True):
                 inputs.append(p)
     bind = {p: ["bound", p] for p in draw(subset(inputs, 0.25))}
     select = None
-    if with_select and outs and draw(st.floats(0, 1)) < 0.3:
+    if with_select and outs and prob(draw, 0.3):
         k = draw(st.integers(1, min(2, len(outs))))
         select = draw(st.permutations(outs))[:k]
     required, optional, _ = ref.input_spec(nodes, bind, select)
     values = {p: ["in", p, 0] for p in inputs if p in required}
     # optional inputs (defaulted / bound) sometimes overridden at run time; unneeded inputs sometimes supplied
     for p in inputs:
-        if p not in values and draw(st.floats(0, 1)) < (0.4 if p in optional else 0.3):
+        if p not in values and prob(draw, 0.4 if p in optional else 0.3):
             values[p] = ["in", p, 1]
     return {"nodes": nodes, "bind": bind, "values": values, "select": select}
 
@@ -149,23 +155,28 @@ def g2_nodes(draw, max_nodes=6, p_cycle=0.4, p_signal=0.3, p_fail=0.25, min_gate
         else:
             g["k"] = "route"
             first = draw(st.sampled_from(funcs))
-            rest = draw(st.lists(st.sampled_from(pool), max_size=2))
+            rest = draw(st.lists(st.sampled_from(pool), max_size=3))
             targets = list(dict.fromkeys([first] + rest))
             g["targets"] = draw(st.permutations(targets))
-            g["multi"] = draw(st.floats(0, 1)) < 0.3
+            g["multi"] = prob(draw, 0.35)
             if g["multi"]:
-                entry = st.lists(st.sampled_from(g["targets"]), max_size=len(g["targets"]), unique=True)
-                g["table"] = draw(st.lists(st.one_of(entry, st.none()) if draw(st.booleans()) else entry, min_size=1, max_size=3))
+                table = []
+                for _ in range(draw(st.integers(1, 3))):
+                    if prob(draw, 0.1):
+                        table.append(None)
+                    else:
+                        table.append([t for t in draw(st.permutations(g["targets"])) if prob(draw, 0.7)])
+                g["table"] = table
                 g["fallback"] = None
             else:
-                g["fallback"] = draw(st.sampled_from(pool)) if draw(st.floats(0, 1)) < 0.3 else None
+                g["fallback"] = draw(st.sampled_from(pool)) if prob(draw, 0.4) else None
                 opts = list(g["targets"]) + [None]
                 g["table"] = draw(st.lists(st.sampled_from(opts), min_size=1, max_size=3))
         gates.append(g)
     nodes = [dict(n) for n in base] + gates
     labels = set()
     # --- optional cycle: a late node's output takes the name of a graph input of an earlier node
-    if draw(st.floats(0, 1)) < p_cycle:
+    if prob(draw, p_cycle):
         cands = []
         for li in range(1, len(base)):
             if not base[li]["outs"]:
@@ -190,7 +201,7 @@ def g2_nodes(draw, max_nodes=6, p_cycle=0.4, p_signal=0.3, p_fail=0.25, min_gate
                 _reorder(n)
             labels.add("cycle")
     # --- optional ordering signal
-    if draw(st.floats(0, 1)) < p_signal and len(nodes) >= 2:
+    if prob(draw, p_signal) and len(nodes) >= 2:
         pi = draw(st.integers(0, len(nodes) - 1))
         wi = draw(st.integers(0, len(nodes) - 2))
         if wi >= pi:
@@ -199,7 +210,7 @@ def g2_nodes(draw, max_nodes=6, p_cycle=0.4, p_signal=0.3, p_fail=0.25, min_gate
         nodes[wi] = {**nodes[wi], "wait_for": ["sig0"]}
         labels.add("signal")
     # --- optional failing function node
-    if draw(st.floats(0, 1)) < p_fail:
+    if prob(draw, p_fail):
         nf = draw(st.sampled_from([1, 1, 2, 2, 3]))
         for fi in draw(st.permutations(list(range(len(base)))))[:nf]:
             nodes[fi] = {**nodes[fi], "fail": draw(st.sampled_from(["always", "always", {"mod": 2, "eq": 0}, {"mod": 3, "eq": 1}]))}
